@@ -299,10 +299,20 @@ func ruleC09_4(c *Ctx) {
 			continue
 		}
 		sym.Walk(ev.Guard, func(x *sym.Term) bool {
-			if x.Op == "bin" && x.Name == "==" && x.Args[0].Op == "index" && x.Args[0].Args[0].Key() == palKey && x.Args[1].Op == "agg" {
-				if !seenAgg[x.Args[1].Key()] {
-					seenAgg[x.Args[1].Key()] = true
-					aggs = append(aggs, x.Args[1].Key())
+			if x.Op == "bin" && x.Name == "==" {
+				// a whole palette entry compared with a fixed colour (either side, any spelling of the constant)
+				for k := 0; k < 2; k++ {
+					el, other := x.Args[k], x.Args[1-k]
+					if el.Op == "index" && el.Args[0].Key() == palKey && !sym.Mentions(other, palKey) && len(atomsOf(other)) == 0 {
+						key := other.Key()
+						if other.Op == "zero" {
+							key = "agg(0,0,0,0)"
+						}
+						if !seenAgg[key] {
+							seenAgg[key] = true
+							aggs = append(aggs, key)
+						}
+					}
 				}
 			}
 			return true
